@@ -3,6 +3,7 @@ package main
 import (
 	"fmt"
 	"math/rand"
+	"strings"
 
 	. "github.com/reeflective/readline/verifx/internal/sess"
 )
@@ -27,6 +28,10 @@ func init() {
 				K = append(K, pool[r.Intn(len(pool))])
 			}
 			base := Spec{Prompt: "> ", Mode: "emacs", Runs: 1, Inject: []Inject{{Seq: `\C-x\C-y0`, Line: buf, Pos: pos}}}
+			if r.Intn(3) == 0 {
+				// the usual UTF-8 settings: non-ASCII keys of K are then real keys of the script
+				base.Inputrc = "set convert-meta off\nset input-meta on\nset output-meta on\n"
+			}
 			pre := []string{"\x18\x190"}
 			var rec []string
 			if vi {
@@ -43,7 +48,7 @@ func init() {
 			if vi {
 				mode = "vi"
 			}
-			return Case{Specs: []Spec{typed, replay}, Class: mode, Meta: map[string]string{"buf": buf, "pos": fmt.Sprint(pos), "K": fmt.Sprintf("%q", K), "mode": mode}}
+			return Case{Specs: []Spec{typed, replay}, Class: mode, Meta: map[string]string{"buf": buf, "pos": fmt.Sprint(pos), "K": fmt.Sprintf("%q", K), "Kraw": strings.Join(K, ""), "mode": mode}}
 		},
 		oracle: func(c Case, trs []Trace) []Finding {
 			for _, tr := range trs {
@@ -56,12 +61,33 @@ func init() {
 					}
 				}
 			}
+			// a key of K that ends the Readline call (C-d on an empty line, RET...) makes the two scripts
+			// diverge into different calls: not a case of this property
+			for _, tr := range trs {
+				if len(tr.Results) != 1 || tr.Results[0].Err != "end-of-script" {
+					stat("skipped: K ends the call")
+					return nil
+				}
+			}
 			if len(trs[0].Results) != len(trs[1].Results) {
 				return []Finding{{"C18", "replay-differs/" + c.Meta["mode"] + "/returns", fmt.Sprintf("K=%s on %q@%s: typed twice returned %d times, record+replay %d times", c.Meta["K"], c.Meta["buf"], c.Meta["pos"], len(trs[0].Results)-1, len(trs[1].Results)-1), c}}
 			}
 			a, b := trs[0].Waits[len(trs[0].Waits)-1], trs[1].Waits[len(trs[1].Waits)-1]
+			stat("decided: " + c.Meta["mode"])
 			if a.Line != b.Line {
-				return []Finding{{"C18", "replay-differs/" + c.Meta["mode"], fmt.Sprintf("K=%s on %q@%s: typed twice %q, record+replay %q", c.Meta["K"], c.Meta["buf"], c.Meta["pos"], a.Line, b.Line), c}}
+				sig := "replay-differs/" + c.Meta["mode"]
+				// in the Vi keymaps a lone ESC and an ESC-prefixed sequence differ only by timing: a macro is
+				// replayed in one go, so an ESC followed by further keys of the macro is read as a prefix
+				if i := strings.Index(c.Meta["Kraw"], "\x1b"); c.Meta["mode"] == "vi" && i >= 0 && i < len(c.Meta["Kraw"])-1 {
+					sig += "/esc-followed-by-keys"
+				}
+				for _, ch := range c.Meta["Kraw"] {
+					if ch > 0x7f && c.Specs[0].Inputrc != "" {
+						sig += "/non-ascii-key" // the replayed key is delivered as ONE byte (its low 8 bits), not as its UTF-8 bytes
+						break
+					}
+				}
+				return []Finding{{"C18", sig, fmt.Sprintf("K=%s on %q@%s: typed twice %q, record+replay %q", c.Meta["K"], c.Meta["buf"], c.Meta["pos"], a.Line, b.Line), c}}
 			}
 			return nil
 		}})
